@@ -558,6 +558,16 @@ def gen_cases(tier, rng):
             joins.setdefault(rng.randrange(2, len(ms) + 1), []).append("Jr:%d" % next(ids))
         yield Case(e2e_line(rng.choice([100, 400, 3000]), rng.choice([1, 0]), 1, ms, joins,
                             wk=rng.choice([0, 1, 1]), tsgop=rng.choice([0, 1, 2])), cls="e2e-join")
+    # time stamp jumps while the remuxer holds audio, HLS on: FlushAudio from inside openFragment feeds audio of the
+    # other side of the jump back into hls.Muxer (forced splits nested in a forced split)
+    n_jump = 120 if thorough else 10
+    for i in range(n_jump):
+        opts = dict(sizes=[5, 40, 300], sfi=rng.choice([3, 4]), fps_ms=rng.choice([33, 40]), gop=rng.choice([2, 3]), nals_max=1,
+                    audio_sizes=[30, 200], audio_ms=None, start_ts=rng.choice([0, 5000]))
+        opts["jump"] = (rng.randrange(6, 20), rng.choice([-3000, -1500, 12000, 40000]))
+        ms = gen_stream(rng, rng.choice(["avc", "hevc"]), "aac", rng.randrange(10, 20), rng.randrange(14, 30), opts)
+        joins = {rng.randrange(0, len(ms)): ["Jt:1"]}
+        yield Case(e2e_line(rng.choice([100, 400]), 1, 1, ms, joins, wk=0, tsgop=rng.choice([0, 1])), cls="e2e-jump")
     # late sequence headers (after the probe / analysis windows): known limitation classes
     for k in (17, 20):
         ms = gen_stream(rng, "avc", "aac", 6, k + 8, dict(vsh_at=k + 2, video_start=23 * (k + 2), sizes=[9], audio_sizes=[8], sfi=4))
@@ -1276,6 +1286,87 @@ def oracle_rtsp(line_items, out):
 
 
 # ================================================================================================== oracle: c06.e2e
+def read_m3u8(text):
+    """RFC 8216 media playlist -> (target duration, [(EXTINF seconds, uri)])"""
+    lines = text.decode("latin-1").split("\n")
+    if not lines or lines[0].strip() != "#EXTM3U":
+        raise ValueError("no #EXTM3U")
+    target, items, dur = None, [], None
+    for ln in lines[1:]:
+        ln = ln.strip()
+        if ln.startswith("#EXT-X-TARGETDURATION:"):
+            target = int(ln.split(":", 1)[1])
+        elif ln.startswith("#EXTINF:"):
+            dur = float(ln.split(":", 1)[1].split(",")[0])
+        elif ln and not ln.startswith("#"):
+            if dur is None:
+                raise ValueError("segment without EXTINF")
+            items.append((dur, ln))
+            dur = None
+    if target is None:
+        raise ValueError("no EXT-X-TARGETDURATION")
+    return target, items
+
+
+def read_hls_ops(v, frag_ms):
+    """the calls hls.Muxer made on the file system layer, in order.  -> (error or None, [segment bytes in creation order]).
+    Checked at EVERY play list version written: each listed segment exists by then, its EXTINF rounds to at most the
+    target duration, and the duration it is listed with is the span of the time stamps it holds, up to the frame
+    that ended it (RFC 8216 4.3.2.1: the duration of the media segment)"""
+    order, content, closed, listed = [], {}, set(), set()
+    for op in v.split(";"):
+        f = op.split(":")
+        if f[0] == "cr" and f[1].endswith(".ts"):
+            order.append(f[1])
+            content[f[1]] = b""
+        elif f[0] == "wr" and f[1] in content:
+            content[f[1]] += tok_bytes(f[2])
+        elif f[0] == "cl":
+            closed.add(f[1])
+        elif f[0] == "wf" and f[1].endswith("playlist.m3u8.bak"):
+            try:
+                target, items = read_m3u8(tok_bytes(f[2]))
+            except ValueError as ex:
+                return "play list: %s" % ex, None
+            for dur, uri in items:
+                name = next((n for n in order if n.endswith("/" + uri)), None)
+                if name is None or name not in closed:
+                    return "play list names %s, which is not a finished segment" % uri, None
+                if int(dur + 0.5) > target:
+                    return "EXTINF %.3f above the target duration %d" % (dur, target), None
+                listed.add((name, dur))
+    # the durations, against what the segments hold in the end (the frame that ended a segment is written after the play list)
+    def stamps_of(name):
+        units, _ = demux_ts(content[name])
+        return [u["dts"] if pid == 0x100 else u["pts"] for pid, us in units.items() for u in us]
+    for name, dur in sorted(listed):
+        uri = name.rsplit("/", 1)[1]
+        try:
+            stamps = stamps_of(name)
+        except (R09.Bad, ValueError, IndexError) as ex:
+            return "segment %s: %s" % (uri, ex), None
+        if not stamps:
+            continue
+        first = min(stamps)
+        span = (max(stamps) - first) / 90000.0
+        bound = span
+        k = order.index(name)
+        if k + 1 < len(order):
+            try:
+                nst = stamps_of(order[k + 1])
+            except (R09.Bad, ValueError, IndexError):
+                nst = []
+            # the frame that ended the segment counts (it is in the next segment, behind the audio FlushAudio
+            # handed over when that segment was opened), unless it forced the split (more than 10 target durations ahead)
+            for t in nst:
+                nxt = (t - first) / 90000.0
+                if 0 <= nxt <= frag_ms * 10 / 1000.0:
+                    bound = max(bound, nxt)
+        if dur > bound + 0.0015:
+            return "segment %s is listed with EXTINF %.3f but holds %.3f s of media (up to the frame that ended it: %.3f s)" % (uri, dur, span, bound), None
+    return None, [content[n] for n in order]
+
+
 GOP_START_TYPES = {"avc": (5, 7, 8), "hevc": tuple(range(16, 24)) + (32, 33, 34)}
 
 
@@ -1341,13 +1432,17 @@ def oracle_e2e(cfg, line_items, out):
             parts[k] = v
     finding = None
     for k, v in parts.items():
-        if k.startswith("ts") or k == "hls":
-            if k == "hls":
+        if k.startswith("ts") or k == "hlsops":
+            if k == "hlsops":
                 if v == "none":
                     continue
+                err, segs = read_hls_ops(v, int(cf[0]))
+                if err:
+                    return False, "hls: " + err
+                if not segs:
+                    continue
                 data = b""
-                for seg in v.split(","):
-                    sb = tok_bytes(seg)
+                for sb in segs:
                     try:
                         parse_patpmt(sb[:376])
                     except (R09.Bad, ValueError, IndexError) as ex:
